@@ -422,7 +422,7 @@ var c12PosTokens = []struct {
 	{"(", lexer.Bracket, "(", true}, {")", lexer.Bracket, ")", true}, {"[", lexer.Bracket, "[", true}, {"]", lexer.Bracket, "]", true}, {"{", lexer.Bracket, "{", true}, {"}", lexer.Bracket, "}", true},
 }
 
-var c12WS = []string{" ", "", "\t", "\n", " \n  ", "\r", "\r\n", "\u00a0"}
+var c12WS = []string{" ", "", "\t", "\n", " \n  ", "\r", "\r\n", "\u00a0", "\f\v"}
 
 func c12Positions(r *report.Run, evals *int64, orderBase int64) int64 {
 	nt := len(c12PosTokens)
